@@ -191,6 +191,11 @@ Proof.
   - exists (false :: s). cbn. now rewrite Hs.
 Qed.
 
+Theorem merge_iff {A} (a b m : list A) : Interleave a b m <-> exists sched, merge sched a b = m.
+Proof.
+  split; [apply merge_complete|]. intros [s <-]. apply merge_sound.
+Qed.
+
 Lemma filter_interleave {A} (f : A -> bool) a b m : Interleave a b m ->
   Forall (fun x => f x = true) a -> Forall (fun x => f x = false) b -> filter f m = a.
 Proof.
